@@ -195,6 +195,11 @@ func (e *Term) writeTo(s *strings.Builder) {
 	switch e.Type {
 	case TermTypeIdentity:
 		s.WriteByte('.')
+		if len(e.SuffixList) > 0 {
+			if x := e.SuffixList[0].Index; x != nil && x.Name == "" && x.Str == nil {
+				s.WriteString(" .") // ". .[0]" != ".[0]"
+			}
+		}
 	case TermTypeRecurse:
 		s.WriteString("..")
 	case TermTypeNull:
